@@ -171,6 +171,12 @@ func gen(g *vh.Gen) {
 	for i := 0; i < g.N(0, 1); i++ {
 		g.Emit("life", "o0:S,p0:helo,o1:P,p1:pass,k,DS,DP,b0:14000,DS,DP,b1:16000,DS,DP,f0,f1,DS,DP")
 	}
+	// THOROUGH tier only (~30 s of real time): after the cancel and the drain calls each session sends a command, then ALL
+	// clients are completely silent for 9 s, later for 17 s (well inside the configured idle timeout of 30 s); the command
+	// after each gap is answered as usual, Drain stays blocked, the POP3 deletions marked before the cancel are applied at QUIT
+	for i := 0; i < g.N(0, 1); i++ {
+		g.Emit("life", "o0:S,p0:rcpt,o1:P,p1:dele,k,DS,DP,b0:100,b1:100,b0:9000:s,b1:100,DS,DP,b0:17000:s,b1:100,DS,DP,f0,f1,DS,DP")
+	}
 	// POP3 with STLS available: a session upgrades before / after shutdown was requested and completes its dialogue
 	g.Emit("stls", "o0:P,k,t0,p0:dele,DP,f0,DP")
 	g.Emit("stls", "o0:P,t0,k,p0:dele,f0,DP")
